@@ -236,10 +236,12 @@ def script_ops(line):
 def refused_changes(line, fi):
     """[(index, op, digest before, digest after)] for calls that returned 0 and changed used_size or the buffer hash.
     Only for `build` (the digest before the first call is the empty buffer's)."""
-    if not fi or line.split()[0] != "build" or fi.get("steps") in (None, "-"):
+    if not fi or line.split()[0] not in ("build", "edit") or fi.get("steps") in (None, "-"):
         return []
     out = []
-    prev = EMPTY_DIGEST
+    prev = EMPTY_DIGEST if line.split()[0] == "build" else fi.get("start")
+    if prev is None:
+        return []
     for k, (op, st) in enumerate(zip(script_ops(line), fi["steps"].split(","))):
         if "." not in st:
             break
